@@ -133,7 +133,7 @@ def read_outcome(p):
     """('hit'|'miss'|None, get event) for the first Cache::get of the path"""
     for e in p.events:
         if e.kind == "call" and e.name == CACHE + "::get":
-            d = p.state.discr.get(e.result)
+            d = d2(p, e.result)
             return ("hit" if d == 0 else "miss" if d == 1 else None), e
     return None, None
 
